@@ -197,7 +197,6 @@ func ordinalOfValue(fn *ssa.Function, v ssa.Value, m func(ssa.Value) bool) int {
 
 // ---- (2) trie sections -----------------------------------------------------------------------------------------------------------
 
-
 // outerFieldOf: the field of recvType that the address a lies in (a itself, or the struct it is a sub-field of: methods promoted
 // from an embedded vector are called on &recv.field.embedded).
 func outerFieldOf(a ssa.Value, recvType string) (string, bool) {
